@@ -414,6 +414,10 @@ class Frame:
                 from .absbuf import find_loop
                 find_loop(self, st, n.id)
                 return
+        if getattr(self.ev, "abs_bufs", None):
+            from .absbuf import cursor_loop
+            if cursor_loop(self, st):
+                return
         n = 0
         while self._while_test(st):
             n += 1
